@@ -39,7 +39,8 @@ ANCHORS = ["txtorcon.torcontrolprotocol:TorControlProtocol.connectionLost",
            "txtorcon.util:SingleObserver.fire", "txtorcon.util:SingleObserver.already_fired",
            "txtorcon.util:SingleObserver.when_fired"]
 FLOORS = {"quick": {"evaluations": 3000, "deferreds_audited": 8000, "postloss_submissions": 2000,
-                    "disconnect_notifications_audited": 2000, "unanswered_quit_or_signal_audited": 300, "losses_from_inside_a_reply_callback": 300,
+                    "disconnect_notifications_audited": 2000, "unanswered_quit_or_signal_audited": 300, "losses_from_inside_a_reply_callback": 300, "submissions_from_on_disconnect_callback": 100,
+                    "losses_with_1000_or_more_commands_queued": 2,
                     "reach:txtorcon.torcontrolprotocol:TorControlProtocol.connectionLost": 3000},
           "thorough": {"evaluations": 60000, "deferreds_audited": 150000, "postloss_submissions": 40000}}
 
@@ -89,6 +90,7 @@ def gen_case(rnd, boot_in_run=False, max_cmds=6):
             "wd_before": rnd.choice([0, 0, 1, 2, 3]), "wd_after": rnd.choice([0, 1, 1, 2, 3]),
             "wd_behaviours": [rnd.choice(["none", "none", "again", "submit"]) for _ in range(3)],
             "local_close": rnd.choice([0, 0, 0, 1]),
+            "od_submit": rnd.random() < 0.15,
             "cancels": cancels,
             "chunking": gen.chunking(rnd)}
 
@@ -157,6 +159,21 @@ def run_case(case, rec):
                 return res
             d.addBoth(resubmit)
         wds.append(s.aud.watch(d, "wd-before-%d" % i))
+    if case.get("od_submit"):
+        # the deprecated on_disconnect Deferred: callbacks added by the application, one of which
+        # submits a command synchronously
+        def od_resubmit(res):
+            rr = ctl.CmdRec(2000, {"cmd": "FROMOD x", "perline": False, "when": ("od",),
+                                   "reply": (250, [("end", "OK")]), "post": True})
+            s.commands.append(rr)
+            reentrant_cmds.append(rr)
+            s.submit(rr, "on_disconnect-callback")
+            rec.count("submissions_from_on_disconnect_callback")
+            return None         # swallow the failure like an application's errback would
+        try:
+            s.proto.on_disconnect.addBoth(od_resubmit)
+        except Exception as e:
+            s.exceptions.append(("on_disconnect", -1, repr(e)))
     reason = {"done": None, "lost": "lost", "boom": "boom"}[case["reason"]]
     if case.get("local_close"):
         # the application hangs up itself (transport.loseConnection(), e.g. after QUIT): the
@@ -344,6 +361,19 @@ def _run_shard(spec, rec):
             run_case(case, rec)
             if i < 2:
                 rec.sample(case)
+    elif mode == "many-queued":
+        # thousands of commands queued behind a silent Tor when the connection goes
+        for n in spec["sizes"]:
+            rnd = gen.rnd_for(spec["seed"], "C03many", n)
+            cmds = [{"cmd": "BULK%d x" % i, "perline": False, "reply": (250, [("end", "OK")]), "when": ("start",)}
+                    for i in range(n)]
+            cmds.append({"cmd": "POST0 x", "perline": False, "reply": (250, [("end", "OK")]), "when": ("postloss",),
+                         "post": True, "late_watch": False})
+            case = {"cmds": cmds, "total": 0, "boot_in_run": False, "reason": rnd.choice(["done", "lost"]),
+                    "wd_before": 1, "wd_after": 1, "wd_behaviours": ["none"], "local_close": 0, "cancels": [],
+                    "chunking": [1 << 30], "cut": 0}
+            run_case(case, rec)
+            rec.count("losses_with_1000_or_more_commands_queued")
     elif mode == "random":
         for i in range(spec["n"]):
             rnd = gen.rnd_for(spec["seed"], "C03r", spec["shard"], i)
@@ -365,9 +395,11 @@ def plan(tier, seed):
         sp += [{"mode": "every-offset", "n": 700, "maxlen": 800, "max_cmds": 2, "boot": True} for _ in range(3)]
         sp += [{"mode": "random", "n": 500} for _ in range(5)]
         sp += [{"mode": "callback-loss", "n": 400} for _ in range(2)]
+        sp += [{"mode": "many-queued", "sizes": [1200, 3000]}]
     else:
         sp = [{"mode": "every-offset", "n": 15000, "maxlen": 600, "max_cmds": 6} for _ in range(10)]
         sp += [{"mode": "every-offset", "n": 12000, "maxlen": 1400, "max_cmds": 4, "boot": True} for _ in range(4)]
         sp += [{"mode": "random", "n": 10000} for _ in range(6)]
         sp += [{"mode": "callback-loss", "n": 8000} for _ in range(3)]
+        sp += [{"mode": "many-queued", "sizes": [1000, 1200, 3000, 10000]}]
     return sp
